@@ -524,9 +524,12 @@ KeysOf(vk) == CASE vk = "num"   -> {"id", "cbytes", "bytes"}
                 [] vk = "limit" -> {"limit"}
                 [] vk = "group" -> {"group"}
 IsCtl(vk) == vk \in {"sort", "limit", "group"}
+FirstKey(vk) == CASE vk = "num" -> "id" [] vk = "time" -> "ftime" [] vk = "host" -> "chost"
+                  [] vk = "data" -> "cdata" [] vk = "tag" -> "tag" [] OTHER -> CHOOSE k \in KeysOf(vk) : TRUE
+\* Hdrs: "base" one key, "keys" every key of the grammar, "all" keys x sub-query prefix x converter x negations
 Headers(vk) ==
-    IF IsCtl(vk) THEN {[key |-> k, sub |-> "", conv |-> "", neg |-> 0] : k \in KeysOf(vk)}
-    ELSE IF Hdrs = "base" THEN {[key |-> k, sub |-> "", conv |-> "", neg |-> 0] : k \in KeysOf(vk)}
+    IF IsCtl(vk) \/ Hdrs = "keys" THEN {[key |-> k, sub |-> "", conv |-> "", neg |-> 0] : k \in KeysOf(vk)}
+    ELSE IF Hdrs = "base" THEN {[key |-> FirstKey(vk), sub |-> "", conv |-> "", neg |-> 0]}
     ELSE {[key |-> k, sub |-> s, conv |-> c, neg |-> g] :
               k \in KeysOf(vk), s \in {"", "a"}, c \in (IF vk = "data" THEN {"", "b64"} ELSE {""}), g \in {0, 1, 2}}
 
@@ -565,7 +568,8 @@ Closure(s) == LET st == StateOf(s) IN
 Init == /\ seq = <<>>
         /\ done = FALSE
         /\ hd \in (IF Mode = "value" THEN Headers(VK)
-                   ELSE IF Mode = "pairs" THEN {[NoHdr EXCEPT !.key = c] : c \in {"and", "or", "then", "andnot"}}
+                   ELSE IF Mode = "pairs" THEN {[NoHdr EXCEPT !.key = c] :
+                                                   c \in (IF Hdrs = "base" THEN {"and"} ELSE {"and", "or", "then", "andnot"})}
                    ELSE {NoHdr})
 
 KindOfItem(x) == IF Mode = "sim" THEN x.k ELSE x
